@@ -286,7 +286,7 @@ func (st *srvState) exec(ei int, e *sev) {
 		if decodes {
 			d = dumpMsg(inMsg)
 		}
-		lhs = fmt.Sprintf("pkt %s %d %d %s", hx(e.src.IP), e.src.Port, size, d)
+		lhs = fmt.Sprintf("pkt %s %d %d %s raw=%s", hx(e.src.IP), e.src.Port, size, d, hx(e.raw))
 		if st.bl != nil {
 			_, blockedSrc = st.bl.Lookup(e.src.IP)
 		}
